@@ -293,6 +293,24 @@ ROUND4 = {
 for _k, _v in ROUND4.items():
     CHECKS[_k]["text"] = CHECKS[_k]["text"].rstrip() + " " + _v
 
+# rules added after the fifth round of seeded changes
+ROUND5 = {
+    "C01": "Also (R01.11): cached pressure evaluations are handed to solveWall only by the detonation scan (where the upper pressure is proven >= 0), so the convergence guard on "
+           "the runaway verdict cannot be bypassed; (R01.12): boundary data reach every pressure evaluation in the roles they were computed for (shared with C04).",
+    "C02": "Also (R02.10): the v- returned by matchDeflagOrHyb is the one its junction conditions were solved with (shared with C06).",
+    "C05": "Also (R05.9): without a sign change maxAl returns the end of the range at which the residual was tested.",
+    "C06": "Also (R06.9): the template's shooting bracket is cut at its upper end and bracket offsets point inward (shared with C15 / C05).",
+    "C08": "Also (R08.6): widths and relative offsets are clipped and bounded with bounds of their own kind (dimension inference restricted to the wall-parameter code).",
+    "C10": "Also (R10.8): the cached range limits are stored only by the constructor and setExtrapolate (who-may-write).",
+    "C12": "Also (R12.11): numerators and normalisation of the truncation estimate are read from the Chebyshev coefficients after the conversion; the raw array enters only through the polynomial.",
+    "C15": "Also (R15.8): maxAl's no-sign-change exits (shared with C05 R05.9).",
+    "C16": "Also (R16.6): the basis label of a Polynomial is re-assigned only by a method that transforms the coefficients (label / data coherence).",
+    "C19": "Also (R19.2): the given bounds are compared as numbers, never tested for truthiness.",
+    "C20": "Also (R20.8): a change of extrapolation mode rebuilds the spline whenever a table exists (typestate shared with C18 R18.6).",
+}
+for _k, _v in ROUND5.items():
+    CHECKS[_k]["text"] = CHECKS[_k]["text"].rstrip() + " " + _v
+
 NOT_APPLICABLE = {}
 
 ENGINES = [
